@@ -782,7 +782,7 @@ def sym_format(eng, x, spec):
             w = int(width) if width else 0
             if len(cs) < w:
                 pad = 48 if zero else 32
-                if zero and cs and cs[0] == 45:
+                if zero and cs and eng.truth(eng.cmp("Eq", cs[0], 45)):
                     cs = [45] + [pad] * (w - len(cs)) + cs[1:]
                 else:
                     cs = [pad] * (w - len(cs)) + cs
@@ -790,7 +790,7 @@ def sym_format(eng, x, spec):
         if spec == ",":
             s = eng.int_to_str(x)
             cs = list(chars(s))
-            neg = cs and cs[0] == 45
+            neg = bool(cs) and eng.truth(eng.cmp("Eq", cs[0], 45))
             body = cs[1:] if neg else cs
             out = []
             for i, c in enumerate(body):
